@@ -27,7 +27,39 @@ pub struct JunosLocal {
 impl JunosLocal {
     #[tracing::instrument(skip_all, level = "debug")]
     pub(crate) async fn connect() -> Result<Self, Error> {
+        #[cfg(feature = "verif")]
+        if let Some(path) = std::env::var_os("BGPFU_VERIF_CLI_PATH") {
+            return Self::verif_connect(path).await;
+        }
         let mut child = Command::new(CLI_PATH)
+            .stdin(Stdio::piped())
+            .stdout(Stdio::piped())
+            .stderr(Stdio::piped())
+            .args(CLI_ARGS)
+            .kill_on_drop(true)
+            .spawn()?;
+        let stdout = child
+            .stdout
+            .take()
+            .ok_or_else(|| io::Error::other("failed to handle for child stdin"))?;
+        let stdin = child
+            .stdin
+            .take()
+            .ok_or_else(|| io::Error::other("failed to handle for child stdin"))?;
+        let handle = Arc::new(child);
+        Ok(Self {
+            handle,
+            stdin,
+            stdout,
+        })
+    }
+}
+
+#[cfg(feature = "verif")]
+impl JunosLocal {
+    /// Verification hook: same as [`JunosLocal::connect`], spawning `path` instead of `CLI_PATH`.
+    async fn verif_connect(path: std::ffi::OsString) -> Result<Self, Error> {
+        let mut child = Command::new(path)
             .stdin(Stdio::piped())
             .stdout(Stdio::piped())
             .stderr(Stdio::piped())
